@@ -131,7 +131,15 @@ func newVeFakeCluster(name string, count int32) *veFakeCluster {
 		if fd := md.Output().Fields().ByName("namespaces"); fd != nil && fd.IsList() && fd.Message() != nil {
 			if inf := fd.Message().Fields().ByName("namespace_info"); inf != nil && inf.Message() != nil {
 				l := out.Mutable(fd).List()
-				for _, n := range []string{"loc", "other", "loc2", "zzz", "loc"} {
+				upstream := []string{"loc", "other", "loc2", "zzz", "loc"}
+				// the caller can choose the upstream list: it travels in the page token, which the proxy does not touch
+				if tf := md.Input().Fields().ByName("next_page_token"); tf != nil && tf.Kind() == protoreflect.BytesKind && len(in.Get(tf).Bytes()) > 0 {
+					upstream = strings.Split(string(in.Get(tf).Bytes()), ",")
+					if string(in.Get(tf).Bytes()) == "-" {
+						upstream = nil
+					}
+				}
+				for _, n := range upstream {
 					el := l.NewElement().Message()
 					el.Mutable(inf).Message().Set(inf.Message().Fields().ByName("name"), protoreflect.ValueOfString(n))
 					l.Append(protoreflect.ValueOfMessage(el))
@@ -393,6 +401,11 @@ func TestVerifE2E(t *testing.T) {
 				if ns, ok := kv["ns"]; ok {
 					if fd := md.Input().Fields().ByName("namespace"); fd != nil && fd.Kind() == protoreflect.StringKind && !fd.IsList() {
 						in.Set(fd, protoreflect.ValueOfString(ns))
+					}
+				}
+				if lst, ok := kv["list"]; ok {
+					if fd := md.Input().Fields().ByName("next_page_token"); fd != nil && fd.Kind() == protoreflect.BytesKind {
+						in.Set(fd, protoreflect.ValueOfBytes([]byte(lst)))
 					}
 				}
 				out := dynamicpb.NewMessage(md.Output())
